@@ -131,6 +131,23 @@ class Session:
             rec["payload"] = _jsonable(payload)
         return rec
 
+    def attempt(self, name, fn, key=None, payload=None, describe=None):
+        """Run a piece of the code under analysis; an exception raised by the
+        code itself (not an encoding limit) is a counterexample candidate that
+        the replay must confirm on the real code."""
+        from .scalar import OutOfEncoding
+
+        try:
+            return True, fn()
+        except OutOfEncoding:
+            raise
+        except Exception as e:
+            rec = self._rec(kind="obligation", name=name, key=key or name, status="sat", describe=describe,
+                            raised="%s: %s" % (type(e).__name__, str(e)[:300]), seconds=0.0)
+            if payload is not None:
+                rec["payload"] = _jsonable(dict(payload, expect_raise=True))
+            return False, None
+
     def note(self, **kw):
         return self._rec(kind="note", **kw)
 
@@ -205,6 +222,12 @@ def _worker_run(args):
 
 
 def _worker_loop(conn, pid, repo):
+    # the code under analysis prints progress messages: keep stdout for verdict lines only
+    try:
+        devnull = open(os.devnull, "w")
+        os.dup2(devnull.fileno(), 1)
+    except Exception:
+        pass
     _worker_init(pid, repo)
     while True:
         try:
